@@ -52,5 +52,9 @@ PhantomWorstCase ==
                         unf == [Cards EXCEPT ![k].ms = "u"]
                     IN  RLe(B(unf, k, style, u, V), B(alt, k, style, u, V))
               /\ (Cards[k].ph /\ Cards[k].pool = "none") => REq(CvrScore(Cards, k, style, u), Half)
+\* padding is idempotent and only ever turns "x" into "n" on pooled cards
+PaddingSound ==
+    /\ Padded(Padded(Cards)) = Padded(Cards)
+    /\ \A k \in 1..Len(ix) : Padded(Cards)[k] = Cards[k] \/ (Cards[k].cs = "x" /\ Cards[k].pool # "none" /\ Padded(Cards)[k].cs = "n")
 Emit == ix # <<>> => PrintT("BEH " \o ToJson([cards |-> Cards, style |-> style, u |-> RStr(u)]))
 =============================================================================
